@@ -116,3 +116,39 @@ let () =
         let mc = int_of_nat (M.count !mgr) in
         if mc <> int_of_string c then mismatch ln line (Printf.sprintf "model count=%d" mc)
     | _ -> failwith "MCNT args")
+
+(* ---------------- idle list (coq/LList.v) ---------------- *)
+let ll : M.nat list ref = ref []
+let ll_bad = ref false
+
+let ll_apply ln line (o : M.llop) what =
+  incr checked;
+  if not !ll_bad then
+    match M.ll_step !ll o with
+    | Some l' -> ll := l'
+    | None ->
+      ll_bad := true;
+      mismatch ln line ("linked list: " ^ what ^ "; model list = [" ^
+                        String.concat " " (List.map (fun n -> string_of_int (int_of_nat n)) !ll) ^ "]")
+
+let optnat s = if s = "-" then None else Some (nat_of_int (int_of_string s))
+
+let () =
+  register "LLNEW" (fun _ _ _ -> ll := []; ll_bad := false);
+  register "LL+" (fun ln line a -> match a with
+    | [n] -> ll_apply ln line (M.LPush (nat_of_int (int_of_string n))) "PushNode of a node that is in the list"
+    | _ -> failwith "LL+ args");
+  register "LLPF" (fun ln line a -> match a with
+    | [r] -> ll_apply ln line (M.LPopFront (optnat r)) "PopFront returned another node than the model's"
+    | _ -> failwith "LLPF args");
+  register "LLPB" (fun ln line a -> match a with
+    | [r] -> ll_apply ln line (M.LPopBack (optnat r)) "PopBack returned another node than the model's"
+    | _ -> failwith "LLPB args");
+  register "LLR" (fun ln line a -> match a with
+    | [n; ok] -> ll_apply ln line (M.LRemove (nat_of_int (int_of_string n), ok = "1")) "Remove answered differently from the model (true exactly for a member)"
+    | _ -> failwith "LLR args");
+  register "LLLEN" (fun ln line a -> match a with
+    | [v] -> ll_apply ln line (M.LLen (nat_of_int (int_of_string v))) "Len differs from the number of nodes in the model's list"
+    | _ -> failwith "LLLEN args");
+  register "LLS" (fun ln line a ->
+    ll_apply ln line (M.LSlice (List.map (fun x -> nat_of_int (int_of_string x)) a)) "NodeSlice differs from the model's list")
